@@ -8,31 +8,59 @@
             case maps if s is ASCII, and  equalsNocase(s,t) <=> lower(s) = lower(t)
      agg    an exhaustively enumerated family of strings (first byte b0, length len): all 255^(len-1) strings were
             run (or skipped as instances of an open known finding), the maxima of (result size - bound) are <= 0 and the equalsNocase relation never failed
+     cp     one code point c of the recorded case walk: its bytes s, toUpperCase (up), toLowerCase (lo) and toLowerCase of
+            lo (ll): s = Enc8(c), both results are well-formed UTF-8 and not longer than s, lower-casing is
+            idempotent, ASCII follows the C locale
+   Growth: every "text", "bytes" and "cp" line is also compared with the transcription of the library's loops and case
+   tables (UtfLax.tla, UtfCase.tla, UtfCaseData.tla).  That comparison never rejects a trace: where the property
+   leaves the value open (any result on ill-formed input; which letters have a case partner) a difference is a
+   *deviation*; dv counts the deviating lines and the last step writes the count to <trace>.dev for the check's
+   evidence.  Rejection is reserved for the property: the standard's values on well-formed text, bounds, no growth,
+   well-formed in => well-formed out, equalsNocase <=> equal lower-cased forms, ASCII = C locale.
    The trace is accepted iff every line satisfies its predicate.                                                   *)
-EXTENDS Utf, Integers, TLC, Json, IOUtils
+EXTENDS UtfCase, Integers, TLC, Json, IOUtils
 
 T == ndJsonDeserialize(IOEnv.TRACE)
-VARIABLE l
-TInit == l = 1
+VARIABLES l, dv
+TInit == l = 1 /\ dv = 0
 
 NoNul(s) == \A i \in 1..Len(s) : s[i] # 0
 \* dataw()/wlength() are the UTF-16 form read as a wide C string (it ends at the first 0 unit, which only ill-formed
 \* input can produce)
 WideOK(s, o) == /\ o.dw = CStr(o.w) /\ o.wl = Len(o.dw)
 
+\* the observation is what the transcribed loops compute on these very bytes (well-formed or not)
+LaxObsOK(s, o) == /\ o.it = EnumSeq(s) /\ o.cs = U32Seq(s) /\ o.c32 = U32Seq(s) /\ o.n = CountOf(s)
+                  /\ o.w = U16Seq(s) /\ o.b8 = W8Seq(o.w)
+                  /\ o.up = UpperBytes(s) /\ o.lo = LowerBytes(s)
+
 TextOK(e) == /\ \A i \in 1..Len(e.cs) : IsScalar(e.cs[i]) /\ e.cs[i] # 0
              /\ e.s = Enc8Seq(e.cs)
              /\ Dec8Seq(e.s) = [ok |-> TRUE, cs |-> e.cs]
              /\ ObsOK(e.s, e.o)
              /\ WideOK(e.s, e.o)
+             /\ WellFormed8(e.o.up) /\ WellFormed8(e.o.lo)
              /\ Dec16Seq(e.o.w) = [ok |-> TRUE, cs |-> e.cs]
 
 BytesOK(e) == /\ NoNul(e.s) /\ NoNul(e.t)
               /\ ObsOK(e.s, e.o)
               /\ WideOK(e.s, e.o)
               /\ Len(e.tlo) <= Len(e.t)
+              /\ (WellFormed8(e.s) => WellFormed8(e.o.up) /\ WellFormed8(e.o.lo))
               /\ NoCaseOK(e.eq = 1, e.o.lo, e.tlo)
               /\ (IsAscii(e.s) /\ IsAscii(e.t)) => ((e.eq = 1) = (AsciiLower(e.s) = AsciiLower(e.t)))
+
+CpOK(e) == /\ IsScalar(e.c) /\ e.c # 0 /\ e.s = Enc8(e.c)
+           /\ WellFormed8(e.up) /\ WellFormed8(e.lo)
+           /\ Len(e.up) <= Len(e.s) /\ Len(e.lo) <= Len(e.s)
+           /\ e.ll = e.lo
+           /\ (e.c < 128 => e.up = <<UpB(e.c)>> /\ e.lo = <<LoB(e.c)>>)
+
+\* differences from the transcription that are not violations (see the header)
+Deviates(e) == IF e.e = "text" THEN ~(e.o.up = UpperBytes(e.s) /\ e.o.lo = LowerBytes(e.s))
+               ELSE IF e.e = "bytes" THEN ~(LaxObsOK(e.s, e.o) /\ e.tlo = LowerBytes(e.t) /\ (e.eq = 1) = EqualsNocase(e.s, e.t))
+               ELSE IF e.e = "cp" THEN ~(e.up = UpperBytesCp(e.c) /\ e.lo = LowerBytesCp(e.c))
+               ELSE FALSE
 
 RECURSIVE Pow(_, _)
 Pow(b, n) == IF n = 0 THEN 1 ELSE b * Pow(b, n - 1)
@@ -49,6 +77,9 @@ TStep == /\ l <= Len(T)
             \/ e.e = "text" /\ TextOK(e)
             \/ e.e = "bytes" /\ BytesOK(e)
             \/ e.e = "agg" /\ AggOK(e)
-TraceSpec == TInit /\ [][TStep]_l
+            \/ e.e = "cp" /\ CpOK(e)
+         /\ dv' = dv + (IF Deviates(T[l]) THEN 1 ELSE 0)
+         /\ (l = Len(T) => JsonSerialize(IOEnv.TRACE \o ".dev", [dev |-> dv', lines |-> Len(T)]))
+TraceSpec == TInit /\ [][TStep]_<<l, dv>>
 TraceAccepted == TLCGet("stats").diameter - 1 = Len(T)
 ===============================================================================
